@@ -316,6 +316,14 @@ let expand (o : string) (impl_step : string) : zop list * int =
       (ZBase (OT (nat 2, [])) :: l @ [ZBase (OUT (nat 2))], k + 1)
     else if List.length sa = 2 && is_vector sb then with_both (lin 1 (nat 1) (nat 2)) f.(3)
     else if List.length sa = 2 && List.length sb = 2 then with_both (lin 0 (nat 1) (nat 2)) f.(3)
+    else if is_vector sa && is_vector sb && f.(3) = "safe" then begin
+      (* vector . vector: unequal storage lengths are refused, otherwise Inner and a new scalar tensor *)
+      let len i = (match get_t !cur_model (nat i) with Some d -> int_of_z d.d_len | None -> -1) in
+      if len 1 <> len 2 then ([ZInner (nat 1, nat 2, z_of_int 1)], 0) else
+      match zstep_model !cur_model (ZInner (nat 1, nat 2, z_of_int 0)) with
+      | (_, RVal v) -> ([ZBase (ONew (z_of_int 0, [], [v]))], 0)
+      | _ -> ([ZInner (nat 1, nat 2, z_of_int (refusal impl_step))], 0)
+    end
     else failwith "dot: operand ranks not modelled"
   | _ -> ([parse_op o impl_step], 0)
 
